@@ -93,7 +93,8 @@ CFG = dict(
     ],
     assumptions=["float64 arithmetic in Go on amd64 is IEEE-754 without FMA contraction; for integer inputs in [0,64] all intermediate values of the predicates are integers/half-integers below 2^53, hence exact"],
     manifest=dict(
-        text="PARTIAL: the main claim (Bowyer–Watson with the finite super-triangle yields a same-winding, positive-area, non-overlapping, "
+        text="REGENERATED TIE (engine F): the predicate expressions and comparisons (CounterClockwise, ccw, InsideCircumcircle), the SuperTriangle loop body and tail and the index patterns/constants of Edges, fillHole, containsSuperTriangleVertex, bowyerWatson are re-extracted from bowyer_watson.go on every run and *_from_source prove the hand model equal to them for every number type. "
+             "PARTIAL: the main claim (Bowyer–Watson with the finite super-triangle yields a same-winding, positive-area, non-overlapping, "
              "empty-circumcircle triangulation for EVERY point set in general position) is NOT a theorem; it is kept as def C20_full and decided "
              "per input by verified checkers. Lean 4 theorems: the in-circle determinant is negative exactly when the point is strictly inside the "
              "circumcircle, for the assumed (clockwise) winding, over any ordered field (inCircle_iff); the super-triangle as now constructed is "
@@ -119,5 +120,5 @@ CFG = dict(
              "As written C20 is satisfied by an empty result; hull coverage is not part of it. KNOWN FINDING on the unchanged library: far point inserted "
              "after a tight cluster (spacing below ≈ 2^5 ulps of the far coordinates) → float64 in-circle sign noise → non-Delaunay, overlapping output "
              "(fixed witness recorded on every run).",
-        technique="Lean 4 proof of checker soundness + algorithm invariants; verified checker applied per input to the implementation's output in exact arithmetic; exact model-vs-impl comparison on integer inputs"),
+        technique="Lean 4 proof of checker soundness + algorithm invariants, model proved equal to definitions regenerated from source (engine F); verified checker applied per input to the implementation's output in exact arithmetic; exact model-vs-impl comparison on integer inputs"),
 )
